@@ -286,6 +286,89 @@ func driveCut(c *DriverCtx) error {
 			if err := c.Run(ops); err != nil {
 				return err
 			}
+			// a text of more than 64 KiB behind a 32-bit prefix in the LAST such field (a reader that takes long texts in
+			// blocks notices a missing tail last): cut one byte, part of a block, and several blocks short
+			if i == 0 {
+				var lastWide *Field
+				for k := range S.Types[t].Fields {
+					if f := &S.Types[t].Fields[k]; f.Kind == "str" && f.PW >= 4 {
+						lastWide = f
+					}
+				}
+				if lastWide != nil {
+					c.G.Small = true
+					vl := c.G.Value(t, Canon)
+					c.G.Small = false
+					e := make([]int, 66000+c.G.R.Intn(6000))
+					for q := range e {
+						e[q] = 0x41 + q%25
+					}
+					vl[lastWide.Name] = e
+					ml := NewMachine()
+					if _, err := ml.Exec(Op{Op: "new", O: "m", V: vl}); err != nil {
+						return err
+					}
+					evl, err := ml.Exec(Op{Op: "encode", B: "b", O: "m"})
+					if err != nil {
+						return err
+					}
+					n := len(evl.Post)
+					opsl := []Op{{Op: "new", O: "m", V: vl}, {Op: "encode", B: "bref", O: "m", Tag: "reference"}}
+					for _, k := range []int{n - 1, n - 2 - c.G.R.Intn(4000), n - 9000 - c.G.R.Intn(4000)} {
+						if k > 0 && k < n {
+							b := fmt.Sprintf("c%d", k)
+							opsl = append(opsl, Op{Op: "cut", B: b, From: "bref", K: k}, Op{Op: "decode", B: b, O: "r", T: t, Fresh: true, Tag: "long-text-cut"})
+						}
+					}
+					if evl.Res == "ok" {
+						if err := c.Run(opsl); err != nil {
+							return err
+						}
+					}
+				}
+			}
+			// the LAST field is a fixed-width text that begins with the complete wire bytes of an earlier, narrower text field of the
+			// same message; the message is decoded whole first, then cut so that exactly those bytes of the last field are present
+			// (a reader that recognises field contents it has seen before must still count the bytes)
+			if fs := S.Types[t].Fields; i == 0 && len(fs) > 1 && fs[len(fs)-1].Kind == "fixed" && !fs[len(fs)-1].Left && fs[len(fs)-1].N >= 4 {
+				lf := fs[len(fs)-1]
+				done := 0
+				for k := 0; k < len(fs)-1 && done < 3; k++ {
+					f := fs[k]
+					if f.Kind != "fixed" || f.Left || f.Pad != lf.Pad || f.N < 3 || f.N >= lf.N {
+						continue
+					}
+					done++
+					vq := c.G.Value(t, Canon)
+					short := make([]int, f.N-1) // one pad byte on the wire
+					for q := range short {
+						short[q] = 0x42 + (q+k)%20
+					}
+					long := append(append([]int{}, short...), f.Pad)
+					for len(long) < lf.N {
+						long = append(long, 0x78)
+					}
+					vq[f.Name], vq[lf.Name] = short, long
+					mq := NewMachine()
+					if _, err := mq.Exec(Op{Op: "new", O: "m", V: vq}); err != nil {
+						return err
+					}
+					evq, err := mq.Exec(Op{Op: "encode", B: "b", O: "m"})
+					if err != nil {
+						return err
+					}
+					if evq.Res != "ok" {
+						continue
+					}
+					n := len(evq.Post)
+					opsq := []Op{{Op: "new", O: "m", V: vq}, {Op: "encode", B: "bref", O: "m", Tag: "reference"}, {Op: "encode", B: "bw", O: "m"},
+						{Op: "decode", B: "bw", O: "whole", T: t, Fresh: true, Tag: "whole-first"},
+						{Op: "cut", B: "cq", From: "bref", K: n - lf.N + f.N}, {Op: "decode", B: "cq", O: "r", T: t, Fresh: true, Tag: "last-field-holds-an-earlier-field"}}
+					if err := c.Run(opsq); err != nil {
+						return err
+					}
+				}
+			}
 			// the same cuts decoded into ONE used receiver that holds an earlier message of this type (another
 			// body / extension type, longer lists): what the receiver holds must not complete a truncated message
 			if i == 0 && (BodyField(t) != nil || hasKind(t, "objlist") || hasKind(t, "obj")) {
@@ -744,6 +827,33 @@ func driveAlias(c *DriverCtx) error {
 		// two fields that agree (an explicit length next to a length-prefixed text, a count next to a repeating group)
 		for _, v := range c.G.AgreeVariants(t, 6) {
 			ops := []Op{{Op: "new", O: "m", V: v}, {Op: "encode", B: "b", O: "m"}, {Op: "decode", B: "b", O: "r", T: t, Fresh: true, Tag: "fields-agree"},
+				{Op: "scribble", B: "b", K: 64, Tag: "pool-reuse"}, {Op: "observe", O: "r"}}
+			if err := c.Run(ops); err != nil {
+				return err
+			}
+		}
+		// texts of 64 KiB and more behind a 32-bit prefix (a reader may hand big blocks out without copying them): the first
+		// and the last such field of the type
+		var wide []Field
+		for _, f := range S.Types[t].Fields {
+			if f.Kind == "str" && f.PW >= 4 {
+				wide = append(wide, f)
+			}
+		}
+		if len(wide) > 2 {
+			wide = []Field{wide[0], wide[len(wide)-1]}
+		}
+		for j, f := range wide {
+			c.G.Small = true
+			v := c.G.Value(t, Canon)
+			c.G.Small = false
+			L := 65536 + j*(1+c.G.R.Intn(5000))
+			e := make([]int, L)
+			for q := range e {
+				e[q] = 0x41 + (q+j)%25
+			}
+			v[f.Name] = e
+			ops := []Op{{Op: "new", O: "m", V: v}, {Op: "encode", B: "b", O: "m"}, {Op: "decode", B: "b", O: "r", T: t, Fresh: true, Tag: "text-of-64KiB-or-more"},
 				{Op: "scribble", B: "b", K: 64, Tag: "pool-reuse"}, {Op: "observe", O: "r"}}
 			if err := c.Run(ops); err != nil {
 				return err
